@@ -81,6 +81,21 @@ def _failing_line(text):
     return src, err
 
 
+def _asserts_on_sut_module_variable(src, fileinfo):
+    """Is the failing line ``assert <alias>.NAME <op> ...`` with NAME bound at module level of the SUT (not a class / function)?"""
+    if not src or not fileinfo or not fileinfo.alias:
+        return False
+    try:
+        node = ast.parse(src.strip()).body[0]
+    except (SyntaxError, IndexError):
+        return False
+    if not isinstance(node, ast.Assert) or not isinstance(node.test, ast.Compare):
+        return False
+    left = node.test.left
+    return (isinstance(left, ast.Attribute) and isinstance(left.value, ast.Name) and left.value.id == fileinfo.alias
+            and left.attr.isupper())
+
+
 def _mechanism(rec, fileinfo, fn):
     """Mechanism key of a failed / errored test from features of the failure only."""
     from vlib import genfiles
@@ -112,6 +127,10 @@ def _mechanism(rec, fileinfo, fn):
         kind = genfiles.assert_kind(src) if src and src.startswith("assert ") else "unknown"
         if kind in ("unparsable", "not-an-assert"):
             kind = "multiline"
+        if _asserts_on_sut_module_variable(src, fileinfo):
+            # the oracle reads a module-level variable of the SUT (``<alias>.NAME``): what it observes is whatever earlier
+            # executions in the generating process left there, see known_findings.json
+            return f"fails:AssertionError:on-sut-module-variable:{kind}"
         return f"fails:AssertionError:{kind}"
     if exc == "Failed" and "DID NOT RAISE" in (detail + text):
         return "fails:pytest.raises:did-not-raise"
